@@ -37,7 +37,7 @@ claimed = {c["property_id"] for c in checks}
 m = {
  "version":1,
  "setup_cmd":"./setup.sh",
- "hooks":{"guard":"verif","enable":"go build -tags verif (checks build /repo's working tree through the replace directive in /verif/sim/go.mod)","baseline_off_cmd":"cd /repo && GOFLAGS=-mod=mod go test -json -vet=off -count=1 -timeout 25m ./...","source_commits":["ee1eeb8"],"add_only":True},
+ "hooks":{"guard":"verif","enable":"go build -tags verif (checks build /repo's working tree through the replace directive in /verif/sim/go.mod)","baseline_off_cmd":"cd /repo && GOFLAGS=-mod=mod go test -json -vet=off -count=1 -timeout 25m ./...","source_commits":["ee1eeb8","fde73bc"],"add_only":True},
  "engines": engines,
  "checks": checks,
  "notes": notes,
